@@ -1,11 +1,15 @@
 import ProbLogModel.Core.Proto
 import ProbLogModel.PyPl
-open ProbLogModel.Proto ProbLogModel.PyPl
+import ProbLogModel.Extern
+open ProbLogModel.Proto ProbLogModel.PyPl ProbLogModel.Extern
 
 /-
 Protocol (one op per line):
   py2pl V | pl2py cur|fix P | rt cur|fix V | why cur|fix V | list2term V | term2list cur|fix P
   V ::= (i N) | (f R) | (s "str") | (l V*) | (t V*) | (term P)
+  export (T*) (A*) (V*)        -- problog_export: one result tuple;   T ::= int|float|str|list|term   A ::= u | (b P)
+  exportnd (T*) (A*) ((V*)*)   -- problog_export_nondet / _raw: list of result tuples
+      → modeError | fail | (ok P*) | (ok (P*)*) | bad-convert (a result without the declared type)
   P ::= (ci N) | (cf R) | (cs "str") | (iv N) | (pv "n") | (a "f") | (a2 "f" P P) | (o "f" N "repr")
 -/
 
@@ -50,6 +54,51 @@ partial def showVal : PyVal → String
   | .tup xs => renderList ("t" :: xs.map showVal)
   | .term t => renderList ["term", showPl t]
 
+def parseTy : SExp → Option Ty
+  | .atom "int" => some .int
+  | .atom "float" => some .float
+  | .atom "str" => some .str
+  | .atom "list" => some .list
+  | .atom "term" => some .term
+  | _ => none
+
+def parseArg : SExp → Option Arg
+  | .atom "u" => some .unbound
+  | .list [.atom "b", p] => (parsePl p).map .bound
+  | _ => none
+
+/-- `_convert_output` on every result of one tuple. -/
+def convertAll (tys : List Ty) (vs : List PyVal) : Option (List Pl) :=
+  if tys.length != vs.length then none else (tys.zip vs).mapM (fun (t, v) => convertOutput t v)
+
+def stepExport (nd : Bool) (tys args vals : List SExp) : String :=
+  match tys.mapM parseTy, args.mapM parseArg with
+  | some tys, some args =>
+    if tys.length != args.length then "bad-op" else
+    let targs := tys.zip args
+    if nd then
+      match vals.mapM (fun v => match v with | .list vs => vs.mapM parseVal | _ => none) with
+      | none => "bad-op"
+      | some vss =>
+        match vss.mapM (convertAll tys) with
+        | none => "bad-convert"
+        | some rss =>
+          match exportCallNondet targs rss with
+          | none => "modeError"
+          | some outs => renderList ("ok" :: outs.map (fun o => renderList (o.map showPl)))
+    else
+      match vals.mapM parseVal with
+      | none => "bad-op"
+      | some vs =>
+        match convertAll tys vs with
+        | none => "bad-convert"
+        | some rs =>
+          match exportCall targs rs with
+          | .modeError => "modeError"
+          | .fail => "fail"
+          | .ok outs => renderList ("ok" :: outs.map showPl)
+  | _, _ => "bad-op"
+
 def decOf (s : String) : Option (String → String) :=
   if s == "cur" then some stripAll else if s == "fix" then some stripPair else none
 
@@ -60,6 +109,8 @@ def step (_ : Unit) (line : String) : Unit × String :=
       (match parseVal v with | some v => showPl (py2pl v) | none => "bad-op")
     | some [.atom "list2term", v] =>
       (match parseVal v with | some (.list xs) => showPl (list2term xs) | _ => "bad-op")
+    | some [.atom "export", .list tys, .list args, .list vals] => stepExport false tys args vals
+    | some [.atom "exportnd", .list tys, .list args, .list vals] => stepExport true tys args vals
     | some [.atom op, .atom d, x] =>
       (match decOf d with
        | none => "bad-op"
